@@ -259,6 +259,7 @@ class VcxProject(Project):
                     for k, v in names.items()}
 
         compiles = E.ItemGroup()
+        objects = set()
         for i in files:
             name = i['name']
             c = func(name, i['options'])
@@ -271,6 +272,16 @@ class VcxProject(Project):
                 c.append(E.ObjectFileName(textify(
                     suffix, builddir=BuildDir.intermediate
                 )))
+            else:
+                suffix = path.Path(basename(name.path) + '.obj')
+
+            # Two sources that differ only in their extension would compile to
+            # the same object file; fail like the other backends do instead
+            # of letting one silently overwrite the other.
+            if suffix in objects:
+                raise ValueError('object file {!r} already exists'
+                                 .format(suffix.suffix))
+            objects.add(suffix)
             compiles.append(c)
         return compiles
 
